@@ -202,7 +202,7 @@ template <int N> static void inv_case(const std::vector<int> &a, const char *tag
     bool ok; dmat R = vd::inverse(D, ok);
     bool big = false; std::vector<double> out(N * N); for (int k = 0; k < N * N; ++k) out[k] = Ai(k);
     vr::obj o; o.str("k", "inv").str("tag", tag).i("n", N).b("rat", rat).i("sh", SH).ints("A", a).raw("out", vd::fix_list(out, SH, big)).b("big", big);
-    o.i("e", md(std::max(e1, e2) / std::max((ld)1, vd::max_abs(Di) * vd::max_abs(D)))).i("err", md(vd::max_abs(vd::subm(Di, R)) / std::max((ld)1, vd::max_abs(R))));
+    o.i("eres", md(std::max(e1, e2) / std::max((ld)1, vd::max_abs(Di) * vd::max_abs(D)))).i("err", md(vd::max_abs(vd::subm(Di, R)) / std::max((ld)1, vd::max_abs(R))));
     put(o);
 }
 template <int N> static void inv_enum(int lo, int hi, unsigned stride, const char *tag) {
@@ -231,7 +231,7 @@ static void c_inv_complex(vr::rng &g, int n) {
     dmat Di(n, n); for (int i = 0; i < n; ++i) for (int j = 0; j < n; ++j) Di(i, j) = cld(A[i * n + j].real(), A[i * n + j].imag());
     ld e1 = vd::max_abs(vd::subm(vd::mul(D, Di), vd::ident(n))), e2 = vd::max_abs(vd::subm(vd::mul(Di, D), vd::ident(n)));
     vr::obj o; o.str("k", "inv").str("tag", "complex").i("n", n).b("rat", false).i("sh", SH).raw("A", "[]").raw("out", "[]").b("big", false);
-    o.i("e", md(std::max(e1, e2) / std::max((ld)1, vd::max_abs(Di) * vd::max_abs(D)))).i("err", md(vd::max_abs(vd::subm(Di, R)) / std::max((ld)1, vd::max_abs(R))));
+    o.i("eres", md(std::max(e1, e2) / std::max((ld)1, vd::max_abs(Di) * vd::max_abs(D)))).i("err", md(vd::max_abs(vd::subm(Di, R)) / std::max((ld)1, vd::max_abs(R))));
     put(o);
 }
 static void mode_inverse(uint64_t seed, bool th) {
